@@ -827,7 +827,9 @@ func (c *clusterClient) doresultfn(
 				if !c.retry || !cm.IsRetryable() {
 					continue
 				}
-				retryDelay = c.retryHandler.RetryDelay(attempts, cm, resp.Error())
+				if retryDelay = c.retryHandler.RetryDelay(attempts, cm, resp.Error()); retryDelay < 0 {
+					continue // the retry policy declines: do not re-send it along with redirected commands
+				}
 			} else {
 				nc = c.redirectOrNew(addr, cc, cm.Slot(), mode)
 			}
@@ -842,7 +844,11 @@ func (c *clusterClient) doresultfn(
 				}
 				if mi >= 0 && ei < len(commands) && isMulti(commands[mi]) && isExec(commands[ei]) && resps[mi].val.string() == ok { // a transaction is found.
 					mu.Lock()
-					retries.Redirects++
+					if mode == RedirectRetry {
+						retries.RetryDelay = max(retries.RetryDelay, retryDelay)
+					} else {
+						retries.Redirects++
+					}
 					nr := retries.m[nc]
 					if nr == nil {
 						nr = retryp.Get(0, len(commands))
@@ -1291,7 +1297,9 @@ func (c *clusterClient) resultcachefn(
 				if !c.retry {
 					continue
 				}
-				retryDelay = c.retryHandler.RetryDelay(attempts, Completed(cm.Cmd), resp.Error())
+				if retryDelay = c.retryHandler.RetryDelay(attempts, Completed(cm.Cmd), resp.Error()); retryDelay < 0 {
+					continue // the retry policy declines: do not re-send it along with redirected commands
+				}
 			} else {
 				nc = c.redirectOrNew(addr, cc, cm.Cmd.Slot(), mode)
 			}
